@@ -82,6 +82,54 @@ fn run_all() -> (u64, Vec<String>) {
     for (name, r, code) in ctors {
         push(if r.code == code && r.kind == ResponseKind::Normal { None } else { Some(format!("ctor name={name} expected={code} actual={}", r.code)) }, &mut n);
     }
+    // every 5xx response that is SENT is marked `connection: close`: the real server over loopback, error paths of the
+    // per-connection loop (bad protocol version -> 505, ...) and handler-made responses of every class
+    let (wn, wf) = wire_checks();
+    n += wn;
+    for f in wf { if found.len() < 8 { found.push(f) } }
+    (n, found)
+}
+fn wire_checks() -> (u64, Vec<String>) {
+    use std::io::{Read, Write};
+    let mut n = 0u64; let mut found = Vec::new();
+    safina::timer::start_timer_thread();
+    let permit = permit::Permit::new();
+    let exec = safina::executor::Executor::new(1, 2).unwrap();
+    let handler = |req: servlin::Request| -> Response {
+        let code: u16 = req.url().path().trim_start_matches('/').parse().unwrap_or(200);
+        if code == 999 { panic!("handler panic") }
+        Response::text(code, "x")
+    };
+    let (addr, _stopped) = match exec.block_on(servlin::HttpServerBuilder::new().listen_addr(servlin::socket_addr_127_0_0_1_any_port()).max_conns(10).small_body_len(100).permit(permit.new_sub()).spawn(handler)) {
+        Ok(x) => x, Err(e) => return (1, vec![format!("wire server expected=starts actual={e:?}")]) };
+    let mut reqs: Vec<(String, Vec<u8>)> = Vec::new();
+    for code in [200u16, 204, 301, 404, 499, 500, 501, 503, 505, 550, 599, 600, 999] { reqs.push((format!("handler{code}"), format!("GET /{code} HTTP/1.1\r\n\r\n").into_bytes())); }
+    reqs.push(("http10".into(), b"GET / HTTP/1.0\r\n\r\n".to_vec()));
+    reqs.push(("http2".into(), b"GET / HTTP/2.0\r\n\r\n".to_vec()));
+    reqs.push(("badline".into(), b"GET\r\n\r\n".to_vec()));
+    reqs.push(("badheader".into(), b"GET / HTTP/1.1\r\nbad header\r\n\r\n".to_vec()));
+    reqs.push(("toolong".into(), { let mut v = b"GET / HTTP/1.1\r\nx: ".to_vec(); v.extend(vec![b'a'; 70000]); v.extend_from_slice(b"\r\n\r\n"); v }));
+    reqs.push(("chunked-body".into(), b"POST /200 HTTP/1.1\r\ntransfer-encoding: chunked\r\n\r\n3\r\nabc\r\n0\r\n\r\n".to_vec()));
+    reqs.push(("big-body-no-cache-dir".into(), { let mut v = b"POST /200 HTTP/1.1\r\ncontent-length: 500\r\n\r\n".to_vec(); v.extend(vec![b'b'; 500]); v }));
+    reqs.push(("dup-length".into(), b"POST /200 HTTP/1.1\r\ncontent-length: 1\r\ncontent-length: 1\r\n\r\na".to_vec()));
+    for (name, msg) in reqs {
+        n += 1;
+        let mut out = Vec::new();
+        if let Ok(mut c) = std::net::TcpStream::connect_timeout(&addr, std::time::Duration::from_secs(2)) {
+            let _ = c.set_read_timeout(Some(std::time::Duration::from_secs(5)));
+            let _ = c.write_all(&msg);
+            let _ = c.shutdown(std::net::Shutdown::Write);
+            let _ = c.read_to_end(&mut out);
+        }
+        let text = String::from_utf8_lossy(&out).to_string();
+        // every status line on the wire, with the head that follows it
+        for (i, _) in text.match_indices("HTTP/1.1 ") {
+            let head = text[i..].split("\r\n\r\n").next().unwrap_or("");
+            let code: u16 = head.get(9..12).and_then(|c| c.parse().ok()).unwrap_or(0);
+            let marked = head.to_ascii_lowercase().split("\r\n").any(|l| l.replace(' ', "") == "connection:close");
+            if (500..=599).contains(&code) && !marked { found.push(format!("wire request={name} expected=connection: close on the {code} response actual=head {head:?}")); }
+        }
+    }
     (n, found)
 }
 fn main() {
